@@ -301,6 +301,13 @@ impl<'p> Interp<'p> {
                             let c = self.lookup(n, env).ok_or_else(|| Unsupported(format!("assign to unbound {n}")))?;
                             *c.borrow_mut() = v;
                         }
+                        S::LetRec(n, x) => {
+                            // the binder is in scope inside its own right-hand side
+                            self.bind_pat(&Pat::Var(n.clone()), V::Num(0.0), env)?;
+                            let v = self.eval(x, env, st, sty)?;
+                            let c = self.lookup(n, env).ok_or_else(|| Unsupported(format!("letrec {n}")))?;
+                            *c.borrow_mut() = v;
+                        }
                     }
                 }
                 let v = self.eval(last, env, st, sty)?;
@@ -415,7 +422,7 @@ impl<'p> Interp<'p> {
             E::Delay(id, n, x, t) => {
                 let xv = self.num(x, env, st, sty)?;
                 let tv = self.num(t, env, st, sty)?;
-                if !(tv >= 1.0 && tv <= (*n as f64 - 1.0)) {
+                if !(tv >= 1.0 && tv <= (crate::gens::prog::delay_max_value(*n) - 1.0)) {
                     return Err(Unsupported("delay time outside [1, N-1]".into()));
                 }
                 let d = tv.floor() as usize;
@@ -438,7 +445,7 @@ impl<'p> Interp<'p> {
             E::ArrLit(es) => {
                 let mut vs = vec![];
                 for e in es {
-                    vs.push(V::Num(self.num(e, env, st, sty)?));
+                    vs.push(self.eval(e, env, st, sty)?);
                 }
                 V::Tup(vs)
             }
